@@ -434,6 +434,7 @@ class OnDiskPartition(Partition):
         super().__init__()
         self._tempdir = Path(tempfile.mkdtemp(prefix="memento_partition_"))
         self._data_source = _FilesystemDataSource(str(self._tempdir))
+        self._data_source.is_staging_area = True
         self._codec = DefaultCodec(config={})
         self._result_keys = dict()
         self._result_types = dict()
